@@ -184,9 +184,9 @@ func expectedCode(pertName string) string {
 		return "linker-duplicate-url-parameter"
 	case pertName == "route.add-{extra}":
 		return "linker-route-missing-path-reference"
-	case pertName == "ret.last->string":
+	case pertName == "ret.last->string" || pertName == "ret.last->multi-line-generic":
 		return "receiver-return-value-is-not-an-error"
-	case pertName == "ret.add-third":
+	case pertName == "ret.add-third" || pertName == "ret.add-third-with-multi-line-last":
 		return "receiver-return-values-invalid-signature"
 	}
 	return ""
